@@ -4,6 +4,7 @@ import (
 	"bytes"
 	"fmt"
 	"io"
+	"strings"
 	rs "verif/lib/ref/schema"
 	"verif/lib/schemagen"
 	"verif/lib/typedmon"
@@ -302,7 +303,7 @@ func (c11) RunCase(c *fw.Ctx, rng *fw.RNG, batch, i int) {
 				dagjson.Encode(t.n, io.Discard)
 			case 1:
 				name = "assign-extend"
-				c11AssignExtend(rng, t)
+				c11AssignExtend(c, rng, t)
 			case 2:
 				name = "walk"
 				traversal.WalkAdv(t.n, c11ExploreAll, func(traversal.Progress, datamodel.Node, traversal.VisitReason) error { return nil })
@@ -448,6 +449,9 @@ func c11Similar(rng *fw.RNG, like model.Val) model.Val {
 		if n > 0 && rng.Bool() {
 			n = 1 + rng.Intn(n)
 		}
+		if n == 0 {
+			n = 1 + rng.Intn(3) // a builder whose first node was empty builds something visible next
+		}
 		xs := make([]model.Val, n)
 		for i := range xs {
 			xs[i] = model.String(fmt.Sprintf("reused-%d", i))
@@ -457,6 +461,9 @@ func c11Similar(rng *fw.RNG, like model.Val) model.Val {
 		n := len(like.M)
 		if n > 0 && rng.Bool() {
 			n = 1 + rng.Intn(n)
+		}
+		if n == 0 {
+			n = 1 + rng.Intn(3)
 		}
 		es := make([]model.Entry, n)
 		for i := range es {
@@ -480,8 +487,59 @@ func c11Similar(rng *fw.RNG, like model.Val) model.Val {
 }
 
 // c11AssignExtend puts the node (or its children) into other builders which are then extended.
-func c11AssignExtend(rng *fw.RNG, t *c11Tracked) {
+func c11AssignExtend(c *fw.Ctx, rng *fw.RNG, t *c11Tracked) {
 	n := t.n
+	// "assigning it into other builders that are then extended", taken literally: a builder of the node's OWN
+	// prototype (where implementations take shortcuts and may share structure) receives the whole node and is
+	// then used further — a fresh inhabitant for typed builders, more entries for generic ones. Implementations
+	// that consider this misuse say so with an error or a panic, which is fine; the tracked node must not change.
+	func() {
+		defer func() { recover() }()
+		proto := n.Prototype()
+		if proto == nil {
+			return
+		}
+		for round := 0; round < 2; round++ { // two sibling copies of the same source
+			nb := proto.NewBuilder()
+			if nb.AssignNode(n) != nil {
+				return
+			}
+			func() {
+				defer func() { recover() }()
+				if t.rebuild != nil {
+					t.rebuild(nb)
+					return
+				}
+				switch n.Kind() {
+				case datamodel.Kind_Map:
+					if ma, err := nb.BeginMap(2); err == nil {
+						if va, err := ma.AssembleEntry(fmt.Sprintf("\x01own-%d", round)); err == nil {
+							va.AssignString("extended")
+						}
+						ma.Finish()
+					}
+				case datamodel.Kind_List:
+					if la, err := nb.BeginList(2); err == nil {
+						la.AssembleValue().AssignString("extended")
+						la.Finish()
+					}
+				}
+			}()
+			func() {
+				defer func() { recover() }()
+				n2 := nb.Build()
+				// entries that only the extended copy has must not have become reachable in the original
+				// (a shared Go map shows in lookups before it shows in iteration)
+				v2 := obs.ReadOut(n2, obs.Options{Light: true, Typed: true}).Val
+				if strings.HasPrefix(t.label, "representation of typed") {
+					return // a representation builder hands back the typed node: its keys are the other level's
+				}
+				if where := c11LeakedKey(n, t.snap, v2, ""); where != "" {
+					c.Deviate("C11:node-changed:extended-copy-leaks-into-original:"+sanitizeSig(t.label), fmt.Sprintf("node produced by %q was assigned into a builder of its own prototype, which was then extended; the original now answers a lookup for %s, a key only the extended copy was given\noriginal (snapshot): %s\nextended copy: %s", t.label, where, clipS(t.snap.Dump(), 500), clipS(v2.Dump(), 500)))
+				}
+			}()
+		}
+	}()
 	switch n.Kind() {
 	case datamodel.Kind_Map:
 		for _, proto := range []datamodel.NodePrototype{basicnode.Prototype.Map, basicnode.Prototype.Any, c01MapAnyP} {
@@ -616,4 +674,36 @@ func c11Transform(rng *fw.RNG, t *c11Tracked) {
 		traversal.FocusedTransform(withChild, datamodel.ParsePath("a"), repl, false)
 		traversal.WalkTransforming(withChild, c11ExploreAll, func(_ traversal.Progress, x datamodel.Node) (datamodel.Node, error) { return x, nil })
 	}
+}
+
+// c11LeakedKey looks for a map key that v2 (an extended copy) has and snap (the original's snapshot) has not,
+// and that the original node n nevertheless resolves. Returns the path of the first one found.
+func c11LeakedKey(n datamodel.Node, snap, v2 model.Val, path string) string {
+	if snap.K != model.KMap || v2.K != model.KMap || n.Kind() != datamodel.Kind_Map {
+		return ""
+	}
+	for _, e := range v2.M {
+		var child datamodel.Node
+		var err error
+		func() {
+			defer func() {
+				if recover() != nil {
+					err = fmt.Errorf("panic")
+				}
+			}()
+			child, err = n.LookupByString(e.K)
+		}()
+		if sv, ok := snap.Lookup(e.K); ok {
+			if err == nil && child != nil && !child.IsAbsent() {
+				if w := c11LeakedKey(child, sv, e.V, path+"/"+e.K); w != "" {
+					return w
+				}
+			}
+			continue
+		}
+		if err == nil && child != nil && !child.IsAbsent() {
+			return fmt.Sprintf("%q", path+"/"+e.K)
+		}
+	}
+	return ""
 }
